@@ -105,7 +105,9 @@ def case(draw, tier):
         d2 = {"lag": draw(st.integers(0, 3)), "skip_mod": draw(st.integers(2, 4)),
               # differing key sets: a key may leave the second dictionary while the first keeps its child alive, and come back
               "leave_after": draw(st.sampled_from([0, 0, 1, 2, 3])), "readd_after": draw(st.sampled_from([0, 1, 2])),
-              "yy_passive": draw(st.booleans())}
+              "yy_passive": draw(st.booleans()),
+              # the second dictionary's element also ticks ALONE (in cycles in which the first one's element does not)
+              "solo_ticks": draw(st.booleans())}
     # passive(b): the map NODE does not listen to the broadcast argument; children that read it actively are woken out of band
     b_passive = use_b and draw(st.integers(0, 2)) == 0
     return {"start": start, "end": end, "F": F, "use_key": use_key, "use_b": use_b, "b_passive": b_passive, "script": script, "b_script": b_script,
@@ -286,6 +288,9 @@ def check(case, ctx) -> Result:
                 continue
             t_in = later[d2["lag"]]
             ys = [(t_in, 100 + k)] + [(t, 200 + v) for (t, v) in xs if t > t_in]
+            if d2.get("solo_ticks"):
+                xt = {t for t, _ in xs}
+                ys = sorted(ys + [(t, 400 + k + j) for j, t in enumerate(later) if t > t_in and t not in xt and j % 2 == 0])
             t_out = t_re = None
             la, ra = d2.get("leave_after", 0), d2.get("readd_after", 0)
             if la and len(later) > d2["lag"] + la:
